@@ -1140,3 +1140,34 @@ Proof.
     destruct (supported_facts is_state P HS ph c Hin Hc) as [Hfc _].
     destruct (sf_writes _ _ _ Hfc y Hw) as [_ Hn]. apply Hn, Hlv, Hy.
 Qed.
+
+(* ---------- helper subroutines: a call runs the helper instantiated for its own argument kinds ---------- *)
+Lemma akind_eqb_refl a : akind_eqb a a = true.
+Proof. destruct a; cbn; auto using Nat.eqb_refl. Qed.
+Lemma akinds_eqb_refl l : akinds_eqb l l = true.
+Proof. induction l as [|a l IH]; cbn; [reflexivity|]. now rewrite akind_eqb_refl, IH. Qed.
+Lemma akinds_eqb_eq a : forall b, akinds_eqb a b = true -> a = b.
+Proof.
+  induction a as [|x a IH]; intros [|y b]; cbn; try discriminate; [reflexivity|].
+  rewrite andb_true_iff. intros [H1 H2]. f_equal; [|apply IH, H2].
+  destruct x, y; cbn in H1; try discriminate; try reflexivity. apply Nat.eqb_eq in H1. now subst.
+Qed.
+
+(* the model's call semantics (F applied to the call's own arguments) IS the helper made for the
+   call's own key ... *)
+Lemma helper_own_key F f pos kw : helper F (helper_key f pos) pos kw = F f pos kw.
+Proof. unfold helper, helper_key. cbn [fst snd]. now rewrite akinds_eqb_refl. Qed.
+
+(* ... and a helper made for other argument kinds (e.g. for a user type of another extent) is not
+   defined on these arguments: sharing one subroutine between keys is not a behaviour the model has *)
+Lemma helper_foreign_key F f ks pos kw : ks <> map kind_of_val pos -> helper F (f, ks) pos kw = None.
+Proof.
+  intros H. unfold helper. cbn [fst snd]. destruct (akinds_eqb ks (map kind_of_val pos)) eqn:E; [|reflexivity].
+  apply akinds_eqb_eq in E. contradiction.
+Qed.
+
+Example ex_helper_keys :
+  helper_key "<builtin>len" [VArr [1; 2; 3]] <> helper_key "<builtin>len" [VArr [1; 2; 3; 4; 5]] /\
+  helper F03 (helper_key "<builtin>len" [VArr [1; 2; 3]]) [VArr [1; 2; 3; 4; 5]] [] = None /\
+  helper F03 (helper_key "<builtin>len" [VArr [1; 2; 3; 4; 5]]) [VArr [1; 2; 3; 4; 5]] [] = Some [VInt 5].
+Proof. repeat split; try reflexivity. discriminate. Qed.
